@@ -142,7 +142,12 @@ class UnifiedTypeService:
                 f"Unified type system must use X | None exclusively."
             )
 
-        # Quote forward references BEFORE adding | None so we get: "DataSource" | None not "DataSource | None"
+        # An optional forward reference is quoted as a whole: "DataSource | None". (`"DataSource" | None` would be
+        # evaluated when the class body runs and raise TypeError: str | None is not a valid operation.)
+        if resolved.is_forward_ref and resolved.is_optional and not python_type.startswith('"'):
+            return f'"{python_type} | None"'
+
+        # Quote forward references
         if resolved.is_forward_ref and not python_type.startswith('"'):
             logger.debug(
                 f'Quoting forward ref: {python_type} -> "{python_type}" '
